@@ -8,8 +8,9 @@
       `GoroutineTaskManager.RecordRange`, as *generated from the source* (`Gen.recordRange`), splits
       `[0,len)` into consecutive disjoint ranges for every `len` and every `n > 0`;
     * `stride_disjoint`, `partitions_disjoint` — the two other index spaces the worker closures use;
-    * `facts_*` — the generated access facts of lib/query (`Gen.parFacts`) are internally consistent
-      and contain no `unguarded` access outside the sites listed in `knownUnguarded`.
+    * `facts_ok`, `facts_consistent`, `facts_wellformed`, `manager_fields_locked` — the access facts of
+      lib/query regenerated on this run (`Gen.parFacts`) contain no `unguarded` access and form a
+      consistent per-location policy.
 
   What is trusted (named in the evidence): the extractor's step "syntactic class ⇒ actual access
   pattern of the running program" (cross-checked dynamically with the Go race detector by
@@ -168,30 +169,25 @@ theorem partitionMapKeys_nodup {K : Type} [DecidableEq K] (keys : List K) : (bui
 def unguardedSites (fs : List ParFact) : List String :=
   ((fs.filter (fun f => decide (f.cls = .unguarded))).map ParFact.site).eraseDups
 
-/-- Pre-finding F7 (DESIGN.md §7): the sites known to be unsynchronised in the pinned tree.
-    `GoroutineTaskManager.HasError` reads `m.err` without the mutex `SetError` holds; the two loader
-    goroutines of `readRecordSet` / `loadViewFromJsonLinesFile` share `pos` and `err`. -/
-def knownUnguarded : List String := [
-  "race:goroutine_manager.go:GoroutineTaskManager.HasError:m.err",
-  "race:load_view.go:readRecordSet:err",
-  "race:load_view.go:readRecordSet:pos",
-  "race:load_view.go:loadViewFromJsonLinesFile:err",
-  "race:load_view.go:loadViewFromJsonLinesFile:pos"]
-
-/- The full statement (holds once F7 is repaired in /repo; then `knownUnguarded` becomes `[]`):
-
-     theorem facts_ok : Gen.parFacts.all (fun f => f.cls ≠ .unguarded) = true := by decide
-
-   On the pinned tree it is false (see `facts_unguarded_counterexample`); what is proved instead is
-   that there is no unguarded access OUTSIDE the known sites, so any new one breaks the obligation
-   (and is reported by vt/p_c13.py under its own signature `race:<file>:<function>:<variable>`). -/
-
 set_option maxRecDepth 1000000 in
-/-- **facts_ok_except_known.**  No access of any worker closure of lib/query is `unguarded`, except
-    at the sites of `knownUnguarded`. -/
-theorem facts_ok_except_known :
-    Gen.parFacts.all (fun f => decide (f.cls ≠ .unguarded) || knownUnguarded.contains f.site) = true := by
-  decide
+/-- **facts_ok.**  No access to a shared variable in any fork–join region of lib/query (worker closures
+    of `Run` / `EvaluateSequentially`, bodies started with `go`, the parent between fork and join, the
+    methods of the manager types) is `unguarded`: every one is own-index, sole-goroutine, guarded by the
+    location's lock, an operation of a synchronisation object, or a read of something nobody writes.
+    (Pre-finding F7 — `HasError`/`Err` reading `m.err` without the mutex, `pos`/`err` shared by the two
+    loader goroutines — was repaired in /repo, commit bec97d6; a new unguarded access makes this
+    obligation fail and is reported by vt/p_c13.py as `race:<file>:<function>:<variable>`.) -/
+theorem facts_ok : Gen.parFacts.all (fun f => decide (f.cls ≠ .unguarded)) = true := by decide
+
+/-- the same, as the list of offending sites (what the check prints when `facts_ok` breaks) -/
+theorem facts_unguarded_none : unguardedSites Gen.parFacts = [] := by
+  unfold unguardedSites
+  have h : Gen.parFacts.filter (fun f => decide (f.cls = .unguarded)) = [] := by
+    apply List.filter_eq_nil_iff.mpr
+    intro f hf
+    have := List.all_eq_true.mp facts_ok f hf
+    simpa using this
+  rw [h]; rfl
 
 /-- classes are assigned per location and consistently inside a region: a location with a
     `readOnly` access has no write in the region; `guarded` accesses of one location name one lock;
@@ -223,16 +219,13 @@ def unlockedConflicts (ms : List MethodFact) : List (String × String × String)
       ms.any (fun g => g.concurrent && g.typ == f.typ && g.field == f.field && g.rw == .w))).map
     (fun f => (f.typ, f.method, f.field))).eraseDups
 
-/-- F7, first half: `HasError` reads `err` without `grTaskMutex`. -/
-def knownUnlocked : List (String × String × String) := [("GoroutineTaskManager", "HasError", "err")]
+/-- **manager_fields_locked.**  No method of `GoroutineTaskManager` / `GoroutineManager` that worker
+    goroutines call touches, without the mutex, a field that some such method writes (since commit
+    bec97d6 `HasError` and `Err` take `grTaskMutex`). -/
+theorem manager_fields_locked : unlockedConflicts Gen.managerMethodFacts = [] := by decide
 
-/- full statement:  theorem manager_fields_locked : unlockedConflicts Gen.managerMethodFacts = [] -/
-/-- **manager_fields_locked_except_known.** -/
-theorem manager_fields_locked_except_known :
-    (unlockedConflicts Gen.managerMethodFacts).all (fun p => knownUnlocked.contains p) = true := by decide
-
-/-- The F7 pattern is a data race in the model (concrete witness, independent of the tree): a write
-    under a lock and a read of the same location without it, from two workers. -/
+/-- Why the discipline is needed (a statement about the MODEL, independent of the tree): a write
+    under a lock and a read of the same location without it, from two workers, is a data race. -/
 theorem unlocked_read_counterexample (l : Loc) (m : LockId) :
     HasRace [⟨.worker 0, ⟨l, .w, [m], false⟩⟩, ⟨.worker 1, ⟨l, .r, [], false⟩⟩] := by
   refine ⟨0, 1, by simp, by simp, by decide, ?_⟩
